@@ -25,10 +25,13 @@ Step ==
      ELSE
         LET o == [s2i |-> e.s2i, nob64 |-> e.nob64, disallow |-> e.disallow, wreq |-> e.wreq, wdef |-> e.wdef, wopt |-> e.wopt,
                   optbm |-> e.optbm, usedflt |-> e.usedflt, vm |-> ("vm" \in DOMAIN e /\ e.vm)]
-            exp == J2TV(e.d, desc.from, desc.structs, o)
+            \* (beyond C02, check X02) a body that is not JSON but bare text - it does not begin with a quote - for a string-typed root
+            \* stands for the JSON string with that content
+            doc == IF "unq" \in DOMAIN e /\ e.unq THEN [e.d EXCEPT !.b = e.raw] ELSE e.d
+            exp == J2TV(doc, desc.from, desc.structs, o)
             optDefault == e.optbm /\ ~e.wopt /\ \E n \in DOMAIN desc.structs : \E k \in 1..Len(desc.structs[n]) :
                                                        desc.structs[n][k].req = "opt" /\ desc.structs[n][k].hasd
-            feat == IF e.variant \in {"b64-escaped", "jsconv-i16", "jsconv-null", "jsconv-escaped"} THEN e.variant ELSE IF HasNegZeroIntLit(e.d) THEN "negzero-int-literal"
+            feat == IF e.variant \in {"b64-escaped", "jsconv-i16", "jsconv-null", "jsconv-escaped"} THEN e.variant ELSE IF HasNegZeroIntLit(doc) THEN "negzero-int-literal"
                     ELSE IF optDefault THEN "optional-with-default-without-WriteOptionalField" ELSE ""
         IN
         /\ \A j \in 1..Len(e.res) :
